@@ -20,7 +20,7 @@ class Anomaly(dict):
 
 def kinds_of(p, n):
     t = p.targets.get(n, {})
-    ks = [k for k in ('stamp', 'always', 'head', 'phony', 'dyn', 'split') if t.get(k)]
+    ks = [k for k in ('stamp', 'always', 'head', 'phony', 'dyn', 'split', 'alias') if t.get(k)]
     if t.get('flag') is not None:
         ks.append('flag')
     if t.get('watch'):
@@ -128,6 +128,14 @@ class HistRunner:
             p.targets[op[1]]['flag'] = op[2]
             p.write_flag(self.top, op[1], self.clock)
             m.touch_src(op[1] + '.flag')
+        elif k == 'hflag':
+            # an undeclared cause of failure: not a dependency, so nothing becomes dirty; any execution of the script fails
+            p.targets[op[1]]['hfail'] = bool(op[2])
+            fp = self.path(op[1]) + '.hfail'
+            if op[2]:
+                write_file(fp, b'1\n')
+            elif os.path.lexists(fp):
+                os.unlink(fp)
         elif k == 'watch':
             w = op[1]
             if op[2] == 'delete':
